@@ -172,6 +172,19 @@ def check_access(spec):
             tmp = d / 'scratch'
             tmp.mkdir()
         layer_arg = 'X' if f['layer'] is None else f['layer']
+        if tmp is not None and f['enc'] != 'dense' and n > 1:
+            # another file of the same base name (in another directory, holding the rows in reverse order) is read
+            # first through the same scratch directory: what it leaves there must not leak into the reading below
+            (d / 'other').mkdir()
+            with quiet():
+                g.write_matrix_file(d / 'other' / 'm.h5ad', x[::-1].copy(), P[::-1].copy(), f)
+            ctx0 = {'decoy_file_of_same_name': True, 'shape': [n, n_cols]}
+            it0 = _lib('constructor_raised', ctx0, lambda: AnnDataRowIterator(
+                h5ad_path=str(d / 'other' / 'm.h5ad'), row_chunk_size=spec['row_chunk_sizes'][0], layer=layer_arg,
+                tmp_dir=str(tmp), log=None, max_gb=spec['max_gb'], keep_open=spec['keep_open']))
+            for item in _lib('loop_raised', ctx0, lambda: list(it0)):
+                _same('chunk_of_decoy_file', dict(ctx0, r0=int(item[1]), r1=int(item[2])), item[0], x[::-1][int(item[1]):int(item[2])])
+            del it0
         for rcs in spec['row_chunk_sizes']:
             ctx = {'row_chunk_size': rcs, 'shape': [n, n_cols]}
             it = _lib('constructor_raised', ctx, lambda: AnnDataRowIterator(
